@@ -87,8 +87,19 @@ uint32_t cop_serialize_value(const NanoValue *val, uint8_t *buf, uint32_t buf_si
     return pos;
 }
 
+/* Nesting limit for arrays in a received value: the decoder recurses once per level */
+#define COP_MAX_NESTING 256
+
+static uint32_t deserialize_value_at(const uint8_t *buf, uint32_t buf_size,
+                                     NanoValue *out, VmHeap *heap, uint32_t depth);
+
 uint32_t cop_deserialize_value(const uint8_t *buf, uint32_t buf_size,
                                NanoValue *out, VmHeap *heap) {
+    return deserialize_value_at(buf, buf_size, out, heap, 0);
+}
+
+static uint32_t deserialize_value_at(const uint8_t *buf, uint32_t buf_size,
+                                     NanoValue *out, VmHeap *heap, uint32_t depth) {
     if (buf_size < 1) return 0;
     uint8_t tag = buf[0];
     uint32_t pos = 1;
@@ -121,8 +132,9 @@ uint32_t cop_deserialize_value(const uint8_t *buf, uint32_t buf_size,
         uint32_t len;
         memcpy(&len, buf + pos, 4);
         pos += 4;
-        if (pos + len > buf_size) return 0;
+        if (len > buf_size - pos) return 0;  /* no uint32 wrap: pos <= buf_size here */
         VmString *s = vm_string_new(heap, (const char *)(buf + pos), len);
+        if (!s) return 0;
         pos += len;
         *out = val_string(s);
         break;
@@ -144,11 +156,14 @@ uint32_t cop_deserialize_value(const uint8_t *buf, uint32_t buf_size,
         uint32_t count;
         memcpy(&count, buf + pos, 4);
         pos += 4;
+        /* every element takes at least its tag byte: a larger count cannot be honest */
+        if (count > buf_size - pos || depth >= COP_MAX_NESTING) return 0;
         VmArray *arr = vm_array_new(heap, etype, count > 0 ? count : 4);
+        if (!arr || !arr->elements) return 0;
         for (uint32_t i = 0; i < count; i++) {
             NanoValue elem;
-            uint32_t n = cop_deserialize_value(buf + pos, buf_size - pos,
-                                                &elem, heap);
+            uint32_t n = deserialize_value_at(buf + pos, buf_size - pos,
+                                              &elem, heap, depth + 1);
             if (n == 0) { *out = val_void(); return 0; }
             pos += n;
             vm_array_push(arr, elem);
